@@ -36,11 +36,13 @@ def strat1d(tier):
         lin = md["name"] == "convection"
         explicit = st.builds(lambda i, c: (i, c), st.sampled_from(ex), gen.f(0.05, 0.6))
         implicit = st.builds(lambda i, c: (i, c), st.sampled_from(im), gen.logf(-1, 1.5) if lin else gen.f(0.05, 2.0))
-        return st.builds(lambda n, L, x0, rough, num_r, num_s, s_r, s_s, fl, ic, ns, k, dtl: dict(model=md, mesh=dict(kind="uni", n=n, length=L, x0=x0), num=(num_r if rough else num_s),
-                                                                                          state=(s_r if rough else s_s), flux=fl, integ=ic[0], cfl=ic[1], nsteps=ns, shift=k,
-                                                                                          dtlocal=(dtl and ic[0] != "gear")),
-                         st.one_of(st.integers(2, 4), st.integers(2, nmax), st.integers(2, nmax), st.sampled_from([129, 300])), st.one_of(gen.logf(-1, 1), gen.logf(-1, 1), gen.logf(-9, 4)), st.one_of(st.just(0.0), gen.f(-2, 2)), st.booleans(), gen.num_robust(), gen.num_any(),
-                         gen.state_for(md, True, lnrange=1.0, machmax=1.5), gen.state_for(md, False, lnrange=0.7, machmax=1.2, smooth_amp=0.05),
+        # rough: 0 smooth data + any reconstruction; 1 rough data + robust reconstruction; 2 rough (steeper) data + any reconstruction: extrapolated face states may then be
+        # inadmissible - the operator is still a function of the data only, so even its non-finite entries must move with the shift (operator level only)
+        return st.builds(lambda n, L, x0, rough, num_r, num_s, s_r, s_s, s_x, fl, ic, ns, k, dtl: dict(model=md, mesh=dict(kind="uni", n=n, length=L, x0=x0), num=(num_r if rough == 1 else num_s),
+                                                                                               state=(s_s if rough == 0 else s_r if rough == 1 else s_x), flux=fl, integ=ic[0], cfl=ic[1],
+                                                                                               nsteps=(ns if rough != 2 else 0), shift=k, dtlocal=(dtl and ic[0] != "gear"), steep=(rough == 2)),
+                         st.one_of(st.integers(2, 4), st.integers(2, nmax), st.integers(2, nmax), st.sampled_from([129, 300])), st.one_of(gen.logf(-1, 1), gen.logf(-1, 1), gen.logf(-9, 4)), st.one_of(st.just(0.0), gen.f(-2, 2)), st.sampled_from([0, 0, 1, 1, 2]), gen.num_robust(), gen.num_any(),
+                         gen.state_for(md, True, lnrange=1.0, machmax=1.5), gen.state_for(md, False, lnrange=0.7, machmax=1.2, smooth_amp=0.05), gen.state_for(md, True, lnrange=2.5, machmax=1.5),
                          st.sampled_from(cases.flux_names(fmd)), st.one_of(explicit, explicit, implicit), st.integers(0, 6), st.integers(-40, 40), st.sampled_from([False, False, True]))
     return _models().flatmap(cfg)
 
@@ -86,8 +88,17 @@ def check1d(case):
     watch = sim.TieWatch(P.disc) if md["name"] == "burgers" else None
     rA = [np.array(x, dtype=float) for x in P.disc.rhs(fA)]
     rB = [np.array(x, dtype=float) for x in P.disc.rhs(fB)]
-    if not all(np.all(np.isfinite(x)) for x in rA):
+    nonfinite = not all(np.all(np.isfinite(x)) for x in rA)
+    if nonfinite and (cases.num_is_first_order(case["num"]) or not case.get("steep")):
         sim.nonfinite_operator(case["num"])
+    if nonfinite:
+        # inadmissible extrapolated face states: the non-finite entries must shift with the data, the finite ones are compared as usual
+        for i in range(len(rA)):
+            require(np.array_equal(np.isfinite(np.roll(rA[i], k)), np.isfinite(rB[i])), "rhs-nonfinite-pattern", "equation %d: the non-finite entries of the residual do not shift with the data (%s/%s, %s, n=%d)"
+                    % (i, md["name"], case["flux"], case["num"].get("limiter", case["num"]["name"]), P.n))
+        okA = [np.isfinite(x) for x in rA]
+        rA = [np.where(m_, x, 0.0) for m_, x in zip(okA, rA)]
+        rB = [np.where(np.roll(m_, k), x, 0.0) for m_, x in zip(okA, rB)]
     if watch is not None and watch.hit and not cases.num_is_first_order(case["num"]):
         raise Skip("burgers sonic-expansion tie (discontinuous flux)")     # reconstructed face values: round-off decides the side of the tie
     if watch is not None:
@@ -108,6 +119,8 @@ def check1d(case):
     labels = ["model:" + md["name"], "integ:" + case["integ"], "num:" + case["num"].get("limiter", case["num"]["name"]), "n:%s" % (n if n <= 3 else ">3"), "steps:%d" % min(case["nsteps"], 2)]
     nt = (k % n != 0) and any(not np.array_equal(a, b) for a, b in zip(qA, qB))
     large = bool(case.get("large_solve"))
+    if nonfinite:
+        return dict(nontrivial=nt, labels=labels + ["nonfinite-entries"])
     if case["nsteps"] == 0 or (n > 100 and not large):          # large meshes: operator only, except in the dedicated sub-check
         return dict(nontrivial=nt, labels=labels + (["big"] if n > 100 else []))
     qsc, _a = sim.state_scales(P.smd, P.prim)
